@@ -378,6 +378,9 @@ def remove_fixable_singularities(model, V, modifiable_parameters, U_offset=1e-7,
             changed, new_ex = _remove_singularities(unprocessed_eqs[eq.lhs], V, U_offset=U_offset,
                                                     exp_function=exp_function)
             if changed:  # update equation if the rhs has a singularity that can be fixed
+                # Numbers created during the analysis only carry a unit name: give them units from the model's store
+                new_ex = new_ex.xreplace({q: model.create_quantity(float(q), q.units)
+                                          for q in new_ex.atoms(Quantity) if isinstance(q.units, str)})
                 model.remove_equation(eq)
                 model.add_equation(Eq(eq.lhs, new_ex))
                 unprocessed_eqs.pop(eq.lhs)
